@@ -5,7 +5,7 @@ Detect variants in reads.
 import logging
 import csv
 from collections import defaultdict, Counter
-from typing import Iterable, Iterator, List, Optional
+from typing import Iterable, Iterator, List, Optional, Tuple
 from dataclasses import dataclass
 
 from pysam import AlignedSegment
@@ -298,10 +298,19 @@ class ReadSetReader:
         """
         if regions is None:
             regions = [(0, None)]
+        done_regions: List[Tuple[int, Optional[int]]] = []
         for s, e in regions:
             for alignment in self._reader.fetch(
                 reference=chromosome, sample=sample, start=s, end=e
             ):
+                bam_alignment = alignment.bam_alignment
+                if any(
+                    bam_alignment.reference_start < (de if de is not None else float("inf"))
+                    and (bam_alignment.reference_end or bam_alignment.reference_start + 1) > ds
+                    for ds, de in done_regions
+                ):
+                    # already yielded when an earlier region overlapping it was fetched
+                    continue
                 # TODO handle additional alignments correctly!
                 # find out why they are sometimes overlapping/redundant
                 if (
@@ -313,6 +322,7 @@ class ReadSetReader:
                 ):
                     continue
                 yield alignment
+            done_regions.append((s, e))
 
     def has_reference(self, chromosome):
         return self._reader.has_reference(chromosome)
